@@ -13,7 +13,7 @@ ap.add_argument("--keep", action="store_true"); ap.add_argument("--base", defaul
 a = ap.parse_args()
 # layout <root>/wt (scratch worktree) + <root>/cache (its build cache): same relative paths for every scratch tree,
 # so lib/ompl_build.py can compile through ccache and only the files the change touches are really compiled
-root = "/tmp/try_%s_%s" % (a.prop, hashlib.sha1(os.path.abspath(a.patch).encode()).hexdigest()[:8])
+root = "/tmp/try_%s_%s_%d" % (a.prop, hashlib.sha1(os.path.abspath(a.patch).encode()).hexdigest()[:8], os.getpid())
 wt = os.path.join(root, "wt")
 os.makedirs(root, exist_ok=True)
 subprocess.run(["git", "-C", "/repo", "worktree", "remove", "--force", wt], capture_output=True)
